@@ -192,7 +192,8 @@ package regexp2
 //@ funcspec FindFirstCharSpec(r *Runner) (ok bool)
 //@   requires r != nil && r.code != nil && 0 <= r.Runtextpos && r.Runtextpos <= len(r.Runtext) && r.Runtextend == len(r.Runtext)
 //@   requires 0 <= r.Runtextstart && r.Runtextstart <= len(r.Runtext)
-//@   modifies r.Runtextpos
+//@   requires[facts] FinderFacts(r.code, r.Runtext, r.Runtextstart)
+//@   modifies r.Runtextpos, r.rightToLeft, r.caseInsensitive
 //@   ensures[ltr] !r.code.RightToLeft ==> old(r.Runtextpos) <= r.Runtextpos && r.Runtextpos <= len(r.Runtext) &&
 //@              forall p int :: old(r.Runtextpos) <= p && (p < r.Runtextpos || (!ok && p == r.Runtextpos)) ==> !Att(r.code, r.Runtext, r.Runtextstart, p)
 //@   ensures[rtl] r.code.RightToLeft ==> 0 <= r.Runtextpos && r.Runtextpos <= old(r.Runtextpos) &&
@@ -219,7 +220,7 @@ package regexp2
 //@   requires r.code.RightToLeft == ((r.re.options & RightToLeft) != 0)
 //@   requires RunnerAlloc(r) && (r.runmatch != nil ==> MatchWF(r.runmatch))
 //@   requires r.re.capsize >= 1 && 0 <= r.code.TrackCount
-//@   requires FactMinLen(r.code, rt, textstart)
+//@   requires FactMinLen(r.code, rt, textstart) && FinderFacts(r.code, rt, textstart)
 //@   modifies r.*, r.runmatch.*, elems(int), elems([]int)
 //@   ensures[state]   r.Runtext == rt && r.Runtextstart == textstart && r.Runtextend == len(rt) && r.code == old(r.code) && r.re == old(r.re)
 //@   ensures[alloc]   RunnerAlloc(r) && (r.runmatch != nil ==> MatchWF(r.runmatch))
@@ -313,7 +314,7 @@ package regexp2
 //@          re.quickCode.FindOptimizations == re.code.FindOptimizations &&
 //@          forall text []rune, origin int, p int :: Att(re.quickCode, text, origin, p) == Att(re.code, text, origin, p))
 // C04 (assumed here, decided under C04): published facts hold for every text.
-//@ spec func RegexpFacts(re *Regexp) bool = forall text []rune, origin int :: FactMinLen(re.code, text, origin)
+//@ spec func RegexpFacts(re *Regexp) bool = forall text []rune, origin int :: FactMinLen(re.code, text, origin) && FinderFacts(re.code, text, origin)
 
 // Invariant of runners stored in the pool.
 //@ spec func PooledRunner(re *Regexp, r *Runner) bool = r != nil && r.re == re && r.code == re.code && r.Runtext == nil && RunnerAlloc(r) &&
@@ -404,3 +405,70 @@ package regexp2
 //@   ensures[wf]      m != nil && err == nil && n != nil ==> ReturnedMatch(n, re.code.RightToLeft) && n.text == old(m.text)
 //@   ensures[advance-ltr] m != nil && err == nil && n != nil && !re.code.RightToLeft ==> n.RuneIndex >= old(m.RuneIndex + m.RuneLength) && (old(m.RuneLength) == 0 ==> n.RuneIndex > old(m.RuneIndex))
 //@   ensures[advance-rtl] m != nil && err == nil && n != nil && re.code.RightToLeft ==> n.RuneIndex + n.RuneLength <= old(m.RuneIndex) && (old(m.RuneLength) == 0 ==> n.RuneIndex + n.RuneLength < old(m.RuneIndex))
+
+// ---------------------------------------------------------------------------------------------
+// C03 / C15 / C04: the default candidate finder and what it may assume (runner.go)
+// ---------------------------------------------------------------------------------------------
+
+// C04, as consumed by the default finder. Each conjunct gives one published fact its meaning.
+//@ spec func FactAnchors(code *syntax.Code, text []rune, origin int) bool = forall p int {Att(code, text, origin, p)} :: Att(code, text, origin, p) ==>
+//@     ((code.Anchors & syntax.AnchorBeginning) != 0 ==> p == 0) &&
+//@     ((code.Anchors & syntax.AnchorStart) != 0 ==> p == origin) &&
+//@     ((code.Anchors & syntax.AnchorEnd) != 0 ==> p == len(text)) &&
+//@     ((code.Anchors & syntax.AnchorEndZ) != 0 ==> p == len(text) || (p == len(text) - 1 && text[p] == '\n'))
+//@ spec func FactBm(code *syntax.Code, text []rune, origin int) bool = code.BmPrefix != nil ==> len(code.BmPrefix.pattern) > 0 && code.BmPrefix.rightToLeft == code.RightToLeft &&
+//@     forall p int {Att(code, text, origin, p)} :: Att(code, text, origin, p) ==> syntax.BmAt(code.BmPrefix, text, p)
+//@ spec func FactFc(code *syntax.Code, text []rune, origin int) bool = code.FcPrefix != nil ==> syntax.SetOKv(code.FcPrefix.PrefixSet) &&
+//@     forall p int {Att(code, text, origin, p)} :: Att(code, text, origin, p) ==>
+//@         ite(code.RightToLeft, p > 0 && syntax.Member(code.FcPrefix.PrefixSet, text[p-1]), p < len(text) && syntax.Member(code.FcPrefix.PrefixSet, text[p]))
+// candidate finders selected by FindOptimizations.FindMode only skip positions without a match (decided per finder)
+//@ ghost func FactOptimized(code *syntax.Code, text []rune, origin int) bool
+//@ spec func FinderFacts(code *syntax.Code, text []rune, origin int) bool = FactAnchors(code, text, origin) && FactBm(code, text, origin) && FactFc(code, text, origin) && FactOptimized(code, text, origin) && FactMinLen(code, text, origin)
+
+//@ func findFirstCharDefault(r *Runner) (ok bool)
+//@   props C03 C15
+//@   implements FindFirstCharSpec
+//@   loop 0:
+//@     invariant r.rightToLeft == r.code.RightToLeft && 0 <= r.Runtextpos && r.Runtextpos <= len(r.Runtext) && i == ite(r.rightToLeft, r.Runtextpos, len(r.Runtext) - r.Runtextpos)
+//@     invariant !r.code.RightToLeft ==> old(r.Runtextpos) <= r.Runtextpos && forall p int :: old(r.Runtextpos) <= p && p < r.Runtextpos ==> !Att(r.code, r.Runtext, r.Runtextstart, p)
+//@     invariant r.code.RightToLeft ==> r.Runtextpos <= old(r.Runtextpos) && forall p int :: r.Runtextpos < p && p <= old(r.Runtextpos) ==> !Att(r.code, r.Runtext, r.Runtextstart, p)
+//@     decreases i
+//@   loop 1:
+//@     invariant r.rightToLeft == r.code.RightToLeft && 0 <= r.Runtextpos && r.Runtextpos <= len(r.Runtext) && i == ite(r.rightToLeft, r.Runtextpos, len(r.Runtext) - r.Runtextpos)
+//@     invariant !r.code.RightToLeft ==> old(r.Runtextpos) <= r.Runtextpos && forall p int :: old(r.Runtextpos) <= p && p < r.Runtextpos ==> !Att(r.code, r.Runtext, r.Runtextstart, p)
+//@     invariant r.code.RightToLeft ==> r.Runtextpos <= old(r.Runtextpos) && forall p int :: r.Runtextpos < p && p <= old(r.Runtextpos) ==> !Att(r.code, r.Runtext, r.Runtextstart, p)
+//@     decreases i
+
+// The FindMode-specific finders are verified separately; here the dispatcher's combined contract.
+//@ func shouldUseFindFirstCharOptimized(r *Runner) (b bool)
+//@   props C03
+//@   requires r != nil
+//@ func findFirstCharOptimized(r *Runner) (handled bool, found bool)
+//@   trusted dispatcher over the FindMode-specific finders; each finder is under contract, the dispatch itself is assumed to establish their fact preconditions from FactOptimized
+//@   requires r != nil && r.code != nil && 0 <= r.Runtextpos && r.Runtextpos <= len(r.Runtext) && r.Runtextend == len(r.Runtext)
+//@   requires FinderFacts(r.code, r.Runtext, r.Runtextstart)
+//@   modifies r.Runtextpos
+//@   ensures !handled ==> r.Runtextpos == old(r.Runtextpos)
+//@   ensures handled && !r.code.RightToLeft ==> old(r.Runtextpos) <= r.Runtextpos && r.Runtextpos <= len(r.Runtext) &&
+//@              forall p int :: old(r.Runtextpos) <= p && (p < r.Runtextpos || (!found && p == r.Runtextpos)) ==> !Att(r.code, r.Runtext, r.Runtextstart, p)
+//@   ensures handled ==> !r.code.RightToLeft
+
+// C15: direction helpers. In right-to-left mode each is the mirror image of its left-to-right branch.
+//@ func (r *Runner) forwardchars() (n int)
+//@   props C15
+//@   requires r != nil
+//@   ensures n == ite(r.rightToLeft, r.Runtextpos, r.Runtextend - r.Runtextpos)
+//@ func (r *Runner) forwardcharnext() (ch rune)
+//@   props C15
+//@   requires r != nil && ite(r.rightToLeft, 0 < r.Runtextpos && r.Runtextpos <= len(r.Runtext), 0 <= r.Runtextpos && r.Runtextpos < len(r.Runtext))
+//@   modifies r.Runtextpos
+//@   ensures[mirror] ite(r.rightToLeft, r.Runtextpos == old(r.Runtextpos) - 1 && ch == r.Runtext[r.Runtextpos], r.Runtextpos == old(r.Runtextpos) + 1 && ch == r.Runtext[old(r.Runtextpos)])
+//@ func (r *Runner) backwardnext()
+//@   props C15
+//@   requires r != nil
+//@   modifies r.Runtextpos
+//@   ensures r.Runtextpos == old(r.Runtextpos) + ite(r.rightToLeft, 1, -1)
+//@ func (r *Runner) bump() (b int)
+//@   props C15
+//@   requires r != nil
+//@   ensures b == ite(r.rightToLeft, -1, 1)
